@@ -395,3 +395,19 @@ V("C06", "collected-values-skip-first", "detect", "audiences collected from inde
   (VA, "		matched := false\n\n		for _, audience := range audienceRestriction.Audiences {\n			if audience.Value == sp.AudienceURI {\n				matched = true\n				break\n			}\n		}\n\n		if !matched {",
        "		values := []string{}\n		for i := 1; i < len(audienceRestriction.Audiences); i++ {\n			values = append(values, audienceRestriction.Audiences[i].Value)\n		}\n		matched := false\n		for _, v := range values {\n			if v == sp.AudienceURI {\n				matched = true\n				break\n			}\n		}\n\n		if !matched {"),
   needs="matching audience in first position")
+
+V("C06", "set-lowercased", "detect", "audiences collected into a set under ToLower keys",
+  (VA, "		matched := false\n\n		for _, audience := range audienceRestriction.Audiences {\n			if audience.Value == sp.AudienceURI {\n				matched = true\n				break\n			}\n		}\n\n		if !matched {",
+       "		allowed := make(map[string]struct{}, len(audienceRestriction.Audiences))\n		for _, audience := range audienceRestriction.Audiences {\n			allowed[strings.ToLower(audience.Value)] = struct{}{}\n		}\n\n		if _, matched := allowed[sp.AudienceURI]; !matched {"),
+  (VA, "import (\n	\"fmt\"\n", "import (\n	\"fmt\"\n	\"strings\"\n"),
+  needs="audience differing only in case")
+V("C06", "containsfunc-equalfold", "detect", "slices.ContainsFunc with a case-insensitive predicate",
+  (VA, "		matched := false\n\n		for _, audience := range audienceRestriction.Audiences {\n			if audience.Value == sp.AudienceURI {\n				matched = true\n				break\n			}\n		}\n\n		if !matched {",
+       "		matched := slices.ContainsFunc(audienceRestriction.Audiences, func(a types.Audience) bool { return strings.EqualFold(a.Value, sp.AudienceURI) })\n\n		if !matched {"),
+  (VA, "import (\n	\"fmt\"\n", "import (\n	\"fmt\"\n	\"slices\"\n	\"strings\"\n"),
+  needs="audience differing only in case")
+V("C11", "digest-table-sha256-wrong", "detect", "OAEP digest lookup table maps the SHA-256 identifier to sha1.New",
+  (EK, "			switch ek.EncryptionMethod.DigestMethod.Algorithm {\n			case \"\", MethodSHA1:\n				h = sha1.New() // default\n			case MethodSHA256:\n				h = sha256.New()\n			case MethodSHA512:\n				h = sha512.New()\n			default:\n				return nil, fmt.Errorf(\"unsupported digest algorithm: %v\",\n					ek.EncryptionMethod.DigestMethod.Algorithm)\n			}",
+       "			newHash, ok := oaepDigests[ek.EncryptionMethod.DigestMethod.Algorithm]\n			if !ok {\n				return nil, fmt.Errorf(\"unsupported digest algorithm: %v\",\n					ek.EncryptionMethod.DigestMethod.Algorithm)\n			}\n			h = newHash()"),
+  (EK, "//SHA-1 is commonly used for certificate fingerprints", "var oaepDigests = map[string]func() hash.Hash{\n	\"\":           sha1.New,\n	MethodSHA1:   sha1.New,\n	MethodSHA256: sha1.New,\n	MethodSHA512: sha512.New,\n}\n\nvar _ = sha256.New\n\n//SHA-1 is commonly used for certificate fingerprints"),
+  needs="RSA-OAEP key transport with the SHA-256 digest")
